@@ -192,6 +192,22 @@ func TestVerifC11Broker(t *testing.T) {
 			ampPath = "/amp/client/0" + string(pre) + "/" + strings.SplitN(amp.EncodePath(c.body), "/", 2)[1]
 		}
 		ampReq = &http.Request{Method: "GET", URL: &url.URL{Path: ampPath}, Header: http.Header{}}
+		if k%4 == 3 || k%4 == 2 && rng.Intn(2) == 0 {
+			// the request target as an intermediary may re-escape it: some characters of the data segment
+			// percent-encoded (an RFC 3986-equivalent spelling of the same path), parsed like net/http parses it
+			var raw strings.Builder
+			for j := 0; j < len(ampPath); j++ {
+				ch := ampPath[j]
+				if j >= len("/amp/client/") && ch != '/' && rng.Intn(6) == 0 {
+					fmt.Fprintf(&raw, "%%%02X", ch)
+				} else {
+					raw.WriteByte(ch)
+				}
+			}
+			if u, err := url.ParseRequestURI(raw.String()); err == nil && u.Path == ampPath {
+				ampReq.URL = u
+			}
+		}
 		ampR := c11Serve(i, ampClientOffers, ampReq, withProxy, answer)
 
 		caseLine := fmt.Sprintf("poll=%s path=%s proxy=%v", hex.EncodeToString(c.body), hex.EncodeToString([]byte(ampPath)), withProxy)
